@@ -119,6 +119,34 @@ Definition authorize (enable_check : bool) (cns csa : string) (ids : option (lis
   | None => AuthAccepted None
   end.
 
+(* initConnection up to the point where the connection is registered (ads.go): initProxyMetadata parses
+   the node id ("type~ip~id~dnsdomain", ParseServiceNodeWithMetadata: exactly four "~"-separated parts; the
+   harness only sends valid types and IPs) and sets proxy.ConfigNamespace = GetProxyConfigNamespace BEFORE
+   authorize runs; the proxy the rest of the stream is served as keeps that ConfigNamespace.
+   mns = ISTIO_META namespace, csa = service account of the node metadata. *)
+Definition tilde : ascii := "~"%char.
+Definition node_dns_domain (node_id : string) : option string :=
+  match split_on tilde node_id with
+  | [_; _; _; d] => Some d
+  | _ => None
+  end.
+
+Inductive conn_result :=
+| ConnInvalid                                              (* InvalidArgument: malformed node *)
+| ConnDenied                                               (* PermissionDenied *)
+| ConnAccepted (cfg_ns : string) (verified : option identity).  (* the proxy's ConfigNamespace / VerifiedIdentity *)
+
+Definition init_connection (enable_check : bool) (node_id mns csa : string) (ids : option (list string)) : conn_result :=
+  match node_dns_domain node_id with
+  | None => ConnInvalid
+  | Some dns =>
+      let cns := config_namespace mns dns in
+      match authorize enable_check cns csa ids with
+      | AuthDenied => ConnDenied
+      | AuthAccepted v => ConnAccepted cns v
+      end
+  end.
+
 (* ---------------------------------------------------------------- resource names (resource.go) *)
 
 Inductive rtype := TKube | TConfigMap | TGateway | TInvalid.
